@@ -27,21 +27,52 @@ def run(ctx):
     # dynamic L-supernode storage scheme (environment variable SuperLU_DYNAMIC_SNODE_STORE): storage for an H-supernode is claimed when its
     # leading column is reached, from a symbolic count made at that moment.  One thread: same requirements as the static scheme.
     dyn1 = S.sweep(ctx, 200 if q else 2500, 40 if q else 120, precs="dszc", drivers=("gssv", "gssvx"), flavour="asan",
-                   force={"dyn": 1, "nprocs": 1, "kind": kinds + ["blockdiag", "tridiag"]}, seed_offset=560)
+                   force={"dyn": 1, "nprocs": 1, "evlog": 1, "kind": kinds + ["blockdiag", "tridiag"]}, seed_offset=560)
     S.judge(ctx, dyn1, ["wfL", "wfU", "permr", "permc", "lu"], "dynamic-snode-run")
     # several threads: a genuine defect of the unchanged library (DESIGN 12.3 F11): every failure of this population is reported under ONE key,
     # identified by the mode (dynamic scheme, nprocs >= 2); the same failure in any other population keeps its own key.
     dynp = []
     for i, P in enumerate((2, 4)):
         dynp += S.sweep(ctx, 100 if q else 1200, 40 if q else 100, precs="dszc", drivers=("gssv", "gssvx"), flavour="asan",
-                        force={"dyn": 1, "nprocs": P, "perturb": 2, "kind": kinds}, seed_offset=570 + i)
+                        force={"dyn": 1, "nprocs": P, "perturb": 2, "evlog": 1, "kind": kinds}, seed_offset=570 + i)
     class _Sub:
         def __init__(self): self.v = []; self.coverage = {}
         def violation(self, key, what, blob, no_input=False): self.v.append((key, what, blob))
     sub = _Sub(); S.judge(sub, dynp, ["wfL", "wfU", "permr", "permc", "lu"], "dynamic-snode-threads")
     for key, what, blob in sub.v[:3]:
         ctx.violation("dynamic-snode-store:nprocs>=2", what, blob)
-    ctx.coverage["dynamic_snode_runs"] = {"one_thread": len(dyn1), "threads": len(dynp), "threads_failing": len(sub.v)}
+    # the dynamic-scheme model (Model/Alloc.lean dstep; Props/C05Dyn.lean) replayed on the logged DynamicSetMap / Glu_alloc(LUSUP) events:
+    # offsets must agree event for event (correspondence); an allocation beyond its reservation is the property failing at that point
+    def dyn_replay(recs_):
+        txt = "".join(r["dyntext"] for r in recs_ if r.get("dyntext"))
+        out = C.run_sludrv("dynslots", txt, timeout=900) if txt else ""
+        res = {}
+        for ln in out.split("\n"):
+            t = ln.split()
+            if len(t) >= 12 and t[0] == "case":
+                res[t[1]] = {"events": int(t[3]), "reserve_mismatch": int(t[5]), "alloc_mismatch": int(t[7]), "unmodelled": int(t[9]), "overruns": int(t[11]), "first": t[13:]}
+        return res
+    st_dyn = {"runs_replayed": 0, "events": 0, "overrun_runs_one_thread": 0, "overrun_runs_threads": 0, "unmodelled_allocs": 0}
+    for pop, multi in ((dyn1, False), (dynp, True)):
+        rr = dyn_replay(pop)
+        for r in pop:
+            d = rr.get("c%d" % r["cfg"]["t"]) if r.get("dyntext") else None
+            if d is None: continue
+            st_dyn["runs_replayed"] += 1; st_dyn["events"] += d["events"]; st_dyn["unmodelled_allocs"] += d["unmodelled"]
+            if d["reserve_mismatch"] or d["alloc_mismatch"]:
+                ctx.violation("dynslots-correspondence", "correspondence DynamicSetMap/Glu_alloc(LUSUP) <-> Model/Alloc.lean dstep no longer checks: %d reservation and %d allocation offsets differ (prec=%s n=%d P=%d)" % (
+                    d["reserve_mismatch"], d["alloc_mismatch"], r["cfg"]["prec"], r["cfg"]["n"], r["cfg"]["nprocs"]), S.replay_blob(r), no_input=True)
+            if d["overruns"]:
+                if multi:
+                    st_dyn["overrun_runs_threads"] += 1
+                    if st_dyn["overrun_runs_threads"] <= 2:
+                        ctx.violation("dynamic-snode-store:nprocs>=2", "dynamic scheme, P=%d: H-supernode %s needs %s words, %s were reserved (prec=%s n=%d)" % (
+                            r["cfg"]["nprocs"], d["first"][0], d["first"][1], d["first"][2], r["cfg"]["prec"], r["cfg"]["n"]), S.replay_blob(r))
+                else:
+                    st_dyn["overrun_runs_one_thread"] += 1
+                    ctx.violation("dynamic-slot-overrun", "dynamic scheme, one thread: H-supernode %s needs %s words, %s were reserved: the L supernode outgrows its reservation (prec=%s n=%d kind=%s)" % (
+                        d["first"][0], d["first"][1], d["first"][2], r["cfg"]["prec"], r["cfg"]["n"], r["cfg"]["kind"]), S.replay_blob(r))
+    ctx.coverage["dynamic_snode_runs"] = {"one_thread": len(dyn1), "threads": len(dynp), "threads_failing": len(sub.v), "model_replay": st_dyn}
     # tiny estimates: must stop with the diagnostic (exit through the abort path), never by a signal / sanitizer report
     tiny = []
     for i, fill in enumerate([(-50, 1, -30), (-50, -50, 1), (-50, 2, 2)]):
